@@ -4,5 +4,6 @@ CONSTANTS Names = {"f1", "f2", "f3", "f4", "tmp", "meta"}
           Writer = "direct"
           CacheSize = 1
           Reader = "newestValid"
+          Cleanup = "after"
 INVARIANTS ReadIsValidated
 CHECK_DEADLOCK FALSE
